@@ -249,6 +249,21 @@ func (n *Node) ApplyReal(ctx context.Context, sb *refspec.SignedBlock, validate 
 	return
 }
 
+// ApplyRealPostSlots: the block part only (state already at the block's slot).
+func (n *Node) ApplyRealPostSlots(ctx context.Context, sb *refspec.SignedBlock, validate bool) (err error, panicMsg string) {
+	env, derr := n.W.RealEnvelope(sb.Message.F, sb.Encode(n.W.C), n.Ref.GenesisValidatorsRoot)
+	if derr != nil {
+		return fmt.Errorf("decode: %v", derr), ""
+	}
+	defer func() {
+		if r := recover(); r != nil {
+			panicMsg = fmt.Sprintf("panic: %v", r)
+		}
+	}()
+	err = common.PostSlotTransition(ctx, n.W.Spec, n.EPC, n.Real, env, validate)
+	return
+}
+
 // SlotsReal runs zrnt's ProcessSlots.
 func (n *Node) SlotsReal(ctx context.Context, slot uint64) (err error, panicMsg string) {
 	defer func() {
